@@ -1,0 +1,165 @@
+//go:build verif
+
+// Contracts for the deductive checks under /verif (comment-only; compiled only with -tags verif).
+// Spec functions (evm_*) are defined in /verif/specs/evm.smt2 from Yellow Paper appendix H and EIP-145.
+
+package vm
+
+// A stack word: a non-nil big.Int holding a value in [0, 2^256) that is none of the shared
+// package-level constants the instructions read (an instruction writes its operands in place).
+//@ macro notconst(r) = r != math.tt255 && r != math.tt256 && r != math.tt256m1 && r != math.MaxBig256 && r != math.tt63 && r != math.MaxBig63
+//@   && r != common.Big1 && r != common.Big0 && r != common.Big32 && r != common.Big256 && r != bigZero && r != big32 && r != checkVal
+//@ macro word(r) = r != nil && 0 <= big(r) && big(r) < TT256 && notconst(r) && allocated(r)
+//@ macro vmok(evm, stack) = evm != nil && evm.interpreter != nil && evm.interpreter.intPool != nil && evm.interpreter.intPool.pool != nil
+//@   && stack != nil && evm.interpreter.intPool.pool != stack && ref(evm.interpreter.intPool.pool.data) != ref(stack.data)
+//@ macro top1(stack) = len(stack.data) >= 1 && word(stack.data[len(stack.data)-1])
+//@ macro top2(stack) = len(stack.data) >= 2 && word(stack.data[len(stack.data)-1]) && word(stack.data[len(stack.data)-2])
+//@   && stack.data[len(stack.data)-1] != stack.data[len(stack.data)-2]
+//@ macro top3(stack) = len(stack.data) >= 3 && top2(stack) && word(stack.data[len(stack.data)-3])
+//@   && stack.data[len(stack.data)-1] != stack.data[len(stack.data)-3] && stack.data[len(stack.data)-2] != stack.data[len(stack.data)-3]
+// no pooled integer is one of the three topmost stack entries
+//@ macro poolfree(evm, stack) = forall i int :: 0 <= i && i < len(evm.interpreter.intPool.pool.data) ==>
+//@   evm.interpreter.intPool.pool.data[i] != nil && notconst(evm.interpreter.intPool.pool.data[i]) && allocated(evm.interpreter.intPool.pool.data[i])
+//@   && (len(stack.data) >= 1 ==> evm.interpreter.intPool.pool.data[i] != stack.data[len(stack.data)-1])
+//@   && (len(stack.data) >= 2 ==> evm.interpreter.intPool.pool.data[i] != stack.data[len(stack.data)-2])
+//@   && (len(stack.data) >= 3 ==> evm.interpreter.intPool.pool.data[i] != stack.data[len(stack.data)-3])
+//@ macro X(stack) = big(stack.data[len(stack.data)-1])
+//@ macro Y(stack) = big(stack.data[len(stack.data)-2])
+//@ macro Z(stack) = big(stack.data[len(stack.data)-3])
+
+//@ func intPool.put
+//@   requires p != nil && p.pool != nil
+//@   assigns p.pool.data, p.pool.data[..]
+//@   nopanic[C07,C08]
+
+//@ func opAdd
+//@   requires vmok(evm, stack) && top2(stack)
+//@   ensures[C08] err == nil && len(result0) == 0 && len(stack.data) == old(len(stack.data)) - 1
+//@   ensures[C08] X(stack) == evm_add(old(X(stack)), old(Y(stack)))
+//@   nopanic[C07,C08]
+
+//@ func opSub
+//@   requires vmok(evm, stack) && top2(stack)
+//@   ensures[C08] err == nil && len(result0) == 0 && len(stack.data) == old(len(stack.data)) - 1
+//@   ensures[C08] X(stack) == evm_sub(old(X(stack)), old(Y(stack)))
+//@   nopanic[C07,C08]
+
+//@ func opMul
+//@   requires vmok(evm, stack) && top2(stack)
+//@   ensures[C08] err == nil && len(result0) == 0 && len(stack.data) == old(len(stack.data)) - 1
+//@   ensures[C08] X(stack) == evm_mul(old(X(stack)), old(Y(stack)))
+//@   nopanic[C07,C08]
+
+//@ func opDiv
+//@   requires vmok(evm, stack) && top2(stack)
+//@   ensures[C08] err == nil && len(result0) == 0 && len(stack.data) == old(len(stack.data)) - 1
+//@   ensures[C08] X(stack) == evm_div(old(X(stack)), old(Y(stack)))
+//@   nopanic[C07,C08]
+
+//@ func opMod
+//@   requires vmok(evm, stack) && top2(stack)
+//@   ensures[C08] err == nil && len(result0) == 0 && len(stack.data) == old(len(stack.data)) - 1
+//@   ensures[C08] X(stack) == evm_mod(old(X(stack)), old(Y(stack)))
+//@   nopanic[C07,C08]
+
+//@ func opSdiv
+//@   requires vmok(evm, stack) && top2(stack) && poolfree(evm, stack)
+//@   ensures[C08] err == nil && len(result0) == 0 && len(stack.data) == old(len(stack.data)) - 1
+//@   ensures[C08] X(stack) == evm_sdiv(old(X(stack)), old(Y(stack)))
+//@   nopanic[C07,C08]
+
+//@ func opSmod
+//@   requires vmok(evm, stack) && top2(stack) && poolfree(evm, stack)
+//@   ensures[C08] err == nil && len(result0) == 0 && len(stack.data) == old(len(stack.data)) - 1
+//@   ensures[C08] X(stack) == evm_smod(old(X(stack)), old(Y(stack)))
+//@   nopanic[C07,C08]
+
+//@ func opNot
+//@   requires vmok(evm, stack) && top1(stack)
+//@   ensures[C08] err == nil && len(result0) == 0 && len(stack.data) == old(len(stack.data))
+//@   ensures[C08] X(stack) == evm_not(old(X(stack)))
+//@   nopanic[C07,C08]
+
+//@ func opLt
+//@   requires vmok(evm, stack) && top2(stack) && poolfree(evm, stack)
+//@   ensures[C08] err == nil && len(result0) == 0 && len(stack.data) == old(len(stack.data)) - 1
+//@   ensures[C08] X(stack) == evm_lt(old(X(stack)), old(Y(stack)))
+//@   nopanic[C07,C08]
+
+//@ func opGt
+//@   requires vmok(evm, stack) && top2(stack) && poolfree(evm, stack)
+//@   ensures[C08] err == nil && len(result0) == 0 && len(stack.data) == old(len(stack.data)) - 1
+//@   ensures[C08] X(stack) == evm_gt(old(X(stack)), old(Y(stack)))
+//@   nopanic[C07,C08]
+
+//@ func opSlt
+//@   requires vmok(evm, stack) && top2(stack) && poolfree(evm, stack)
+//@   ensures[C08] err == nil && len(result0) == 0 && len(stack.data) == old(len(stack.data)) - 1
+//@   ensures[C08] X(stack) == evm_slt(old(X(stack)), old(Y(stack)))
+//@   nopanic[C07,C08]
+
+//@ func opSgt
+//@   requires vmok(evm, stack) && top2(stack) && poolfree(evm, stack)
+//@   ensures[C08] err == nil && len(result0) == 0 && len(stack.data) == old(len(stack.data)) - 1
+//@   ensures[C08] X(stack) == evm_sgt(old(X(stack)), old(Y(stack)))
+//@   nopanic[C07,C08]
+
+//@ func opEq
+//@   requires vmok(evm, stack) && top2(stack) && poolfree(evm, stack)
+//@   ensures[C08] err == nil && len(result0) == 0 && len(stack.data) == old(len(stack.data)) - 1
+//@   ensures[C08] X(stack) == evm_eq(old(X(stack)), old(Y(stack)))
+//@   nopanic[C07,C08]
+
+//@ func opIszero
+//@   requires vmok(evm, stack) && top1(stack) && poolfree(evm, stack)
+//@   ensures[C08] err == nil && len(result0) == 0 && len(stack.data) == old(len(stack.data))
+//@   ensures[C08] X(stack) == evm_iszero(old(X(stack)))
+//@   nopanic[C07,C08]
+
+//@ func opAnd
+//@   requires vmok(evm, stack) && top2(stack)
+//@   ensures[C08] err == nil && len(result0) == 0 && len(stack.data) == old(len(stack.data)) - 1
+//@   ensures[C08] X(stack) == evm_and(old(X(stack)), old(Y(stack))) && 0 <= X(stack) && X(stack) < TT256
+//@   nopanic[C07,C08]
+
+//@ func opOr
+//@   requires vmok(evm, stack) && top2(stack)
+//@   ensures[C08] err == nil && len(result0) == 0 && len(stack.data) == old(len(stack.data)) - 1
+//@   ensures[C08] X(stack) == evm_or(old(X(stack)), old(Y(stack)))
+//@   nopanic[C07,C08]
+
+//@ func opXor
+//@   requires vmok(evm, stack) && top2(stack)
+//@   ensures[C08] err == nil && len(result0) == 0 && len(stack.data) == old(len(stack.data)) - 1
+//@   ensures[C08] X(stack) == evm_xor(old(X(stack)), old(Y(stack)))
+//@   nopanic[C07,C08]
+
+//@ func opAddmod
+//@   requires vmok(evm, stack) && top3(stack)
+//@   ensures[C08] err == nil && len(result0) == 0 && len(stack.data) == old(len(stack.data)) - 2
+//@   ensures[C08] X(stack) == evm_addmod(old(X(stack)), old(Y(stack)), old(Z(stack)))
+//@   nopanic[C07,C08]
+
+//@ func opMulmod
+//@   requires vmok(evm, stack) && top3(stack)
+//@   ensures[C08] err == nil && len(result0) == 0 && len(stack.data) == old(len(stack.data)) - 2
+//@   ensures[C08] X(stack) == evm_mulmod(old(X(stack)), old(Y(stack)), old(Z(stack)))
+//@   nopanic[C07,C08]
+
+//@ func opSHL
+//@   requires vmok(evm, stack) && top2(stack)
+//@   ensures[C08] err == nil && len(result0) == 0 && len(stack.data) == old(len(stack.data)) - 1
+//@   ensures[C08] X(stack) == evm_shl(old(X(stack)), old(Y(stack)))
+//@   nopanic[C07,C08]
+
+//@ func opSHR
+//@   requires vmok(evm, stack) && top2(stack)
+//@   ensures[C08] err == nil && len(result0) == 0 && len(stack.data) == old(len(stack.data)) - 1
+//@   ensures[C08] X(stack) == evm_shr(old(X(stack)), old(Y(stack)))
+//@   nopanic[C07,C08]
+
+//@ func opSAR
+//@   requires vmok(evm, stack) && top2(stack)
+//@   ensures[C08] err == nil && len(result0) == 0 && len(stack.data) == old(len(stack.data)) - 1
+//@   ensures[C08] @value X(stack) == evm_sar(old(X(stack)), old(Y(stack)))
+//@   nopanic[C07,C08]
